@@ -6,6 +6,8 @@ import json, os, subprocess, sys, glob, re
 V = os.path.dirname(os.path.abspath(__file__))
 pre = sys.argv[1:]
 wt = "/tmp/seedrecheck"
+if pre and pre[0] == "--wt":            # several instances side by side: give each its own scratch worktree
+    wt, pre = pre[1], pre[2:]
 head = subprocess.check_output(["git", "-C", "/repo", "rev-parse", "--short", "HEAD"]).decode().strip()
 subprocess.run(["git", "-C", "/repo", "worktree", "remove", "--force", wt], stderr=subprocess.DEVNULL)
 subprocess.check_call(["git", "-C", "/repo", "worktree", "add", "-q", "--detach", wt, "HEAD"])
